@@ -247,7 +247,12 @@ class C06:
                  "event manager's label and its root", expect_min=2)
         f = ctx.prog.func("CloudSync.storage_label")
         txt = " ".join(ast.unparse(n) for n in ctx.own_nodes(f) if isinstance(n, ast.Return))
-        need = ["self.providers[0].name", "self.providers[0].connection_id", "roots[0]", "self.providers[1].name", "self.providers[1].connection_id", "roots[1]"]
+        rl = None
+        for n_ in ctx.own_nodes(f):
+            if isinstance(n_, ast.Assign) and isinstance(n_.targets[0], ast.Name) and any(isinstance(x, ast.Attribute) and x.attr == "roots" for x in ast.walk(n_.value)):
+                rl = n_.targets[0].id
+        rl = rl or "self.roots"
+        need = ["self.providers[0].name", "self.providers[0].connection_id", "%s[0]" % rl, "self.providers[1].name", "self.providers[1].connection_id", "%s[1]" % rl]
         miss = [x for x in need if x not in txt]
         rep.check("C06.R6", "storage_label", f, not miss, "label covers names, connection ids and roots of both sides", "storage_label no longer includes %s" % miss, nontrivial=False)
         fv = self.em.methods["_validate_root"]
@@ -255,7 +260,11 @@ class C06:
         for n in ctx.own_nodes(fv):
             if isinstance(n, ast.Assign) and isinstance(n.targets[0], ast.Attribute) and n.targets[0].attr in ("_walk_tag", "_cursor_tag") and isinstance(n.value, ast.BinOp):
                 tags[n.targets[0].attr] = ast.unparse(n.value)
-        good = all("self.label" in v and "my_root" in v for v in tags.values()) and len(tags) == 2 and tags.get("_walk_tag") != tags.get("_cursor_tag")
+        rootv = None
+        for n_ in ctx.own_nodes(fv):
+            if isinstance(n_, ast.Assign) and isinstance(n_.targets[0], ast.Name) and any(isinstance(x, ast.Attribute) and x.attr in ("_root_path", "_root_oid") for x in ast.walk(n_.value)):
+                rootv = n_.targets[0].id
+        good = all("self.label" in v and (rootv or "self._root_path") in v for v in tags.values()) and len(tags) == 2 and tags.get("_walk_tag") != tags.get("_cursor_tag")
         rep.check("C06.R6", "tags", fv, good, "%s" % tags, "cursor / walk tags are not distinct functions of label and root: %s" % tags, nontrivial=False)
 
 
